@@ -191,7 +191,15 @@ class Verifier:
                 states = nxt
             for s_b, binds in states:
                 for j, e in enumerate(getattr(c, 'ensures', [])):
-                    ex.goal('%s/ensures#%d' % (name, j), s_b, ex.spec(e, s_b, binds), {'ensures': e})
+                    try:
+                        fm = ex.spec(e, s_b, binds)
+                        info = {'ensures': e}
+                    except PyExc as pe:
+                        # a postcondition that is undefined in this exit state (e.g. result[0] of an empty result) does
+                        # not hold there
+                        fm = False
+                        info = {'ensures': e, 'undefined in this exit state': '%s %s' % (pe.cls_name, pe.msg)}
+                    ex.goal('%s/ensures#%d' % (name, j), s_b, fm, info)
         ex.feasible_paths = len(res)
         # vacuity canary: `ensures False` must be refutable, i.e. some normal exit is reachable
         ex.canary_refuted = any(oc in (Outcome.RET, Outcome.NEXT) and smt.feasible(s.pc) for s, oc, _v in res)
